@@ -48,6 +48,10 @@ type Policy struct {
 	TktEtype       int           `json:"tkt_etype,omitempty"`    // etype of the service/TGT long-term key used (0 = strongest available)
 	ClockOffset    time.Duration `json:"clock_offset,omitempty"` // KDC clock = simulated clock + offset
 	LatencyNs      int64         `json:"latency_ns,omitempty"`
+	// LenientAuthCRealm: the TGS compares only the client name of the PA-TGS-REQ authenticator with
+	// the ticket, not the realm.  Not conformant (RFC 4120 3.2.3); used to let referral chains run
+	// past the second hop so that the bound on chains can be exercised at all.
+	LenientAuthCRealm bool `json:"lenient_auth_crealm,omitempty"`
 }
 
 // Issue is one record of the issue log.
@@ -824,7 +828,12 @@ func (k *KDC) handleTGS(req *rk.KDCReq, rec *ReqRecord, l *taskLog, pt []Perturb
 		return bad(rk.ErrModified, "checksum over KDC-REQ-BODY does not verify (usage 6)")
 	}
 	if !au.CName.Equal(tgt.CName) || au.CRealm != tgt.CRealm {
-		return bad(rk.ErrModified, "authenticator client does not match the TGT")
+		if !k.Policy.LenientAuthCRealm || !au.CName.Equal(tgt.CName) {
+			return bad(rk.ErrModified, "authenticator client does not match the TGT")
+		}
+		// a KDC that compares only the name (not conformant, but such KDCs exist): the mismatch is
+		// still noted for the oracle
+		rec.Notes = append(rec.Notes, "authenticator client does not match the TGT (realm; tolerated by this KDC)")
 	}
 	at := au.CTime.Add(time.Duration(au.Cusec) * time.Microsecond)
 	if d := now.Sub(at); d > 5*time.Minute || d < -5*time.Minute {
